@@ -508,3 +508,15 @@ Fixpoint refusals_eqb (a b : list refusal_row) : bool :=
   | (c, g) :: a', (c', g') :: b' => String.eqb c c' && strs_eqb g g' && refusals_eqb a' b'
   | _, _ => false
   end.
+
+(* ---------------------------------------------------------------- where the embedded top-level XML lives
+   Rows (kind: attr | node | unknown, name).  Every place NeuroMLHdf5Writer.write stores the serialised non-network
+   part of the document must be a place NeuroMLHdf5Parser.parse reads and hands to read_neuroml2_string: content
+   stored anywhere else is written "successfully" and silently lost on load. *)
+Definition place := (string * string)%type.
+Definition place_eqb (a b : place) : bool := String.eqb (fst a) (fst b) && String.eqb (snd a) (snd b).
+Definition embed_ok (stores reads : list place) : bool :=
+  match stores with
+  | [] => false
+  | _ => forallb (fun w => existsb (place_eqb w) reads) stores
+  end.
